@@ -67,7 +67,9 @@ func (ex *Exec) intrinsic(caller *frame, fn *ssa.Function, args []value, pos tok
 	case "verifF64":
 		return ex.input(ex.constStr(args[0], "input name"), FPSort), true
 	case "verifStr":
-		return ex.input(ex.constStr(args[0], "input name"), StrSort), true
+		v := ex.input(ex.constStr(args[0], "input name"), StrSort)
+		ex.addCond(tc.StrIsBytes(v))
+		return v, true
 	case "verifAssume":
 		c := args[0].(*Term)
 		if c.IsConst() && !c.BoolVal() {
@@ -133,6 +135,10 @@ func (ex *Exec) intrinsic(caller *frame, fn *ssa.Function, args []value, pos tok
 		}
 		ex.stubs[name] = f
 		return nil, true
+	case "stringsContains":
+		return tc.StrContains(args[0].(*Term), args[1].(*Term)), true
+	case "stringsHasPrefix":
+		return tc.StrPrefixOf(args[1].(*Term), args[0].(*Term)), true
 	case "verifStop":
 		panic(pathDone{})
 	case "verifObserve":
